@@ -8,6 +8,7 @@ import numpy as np
 
 import common
 from common import Harness
+from rank_common import make_args
 
 
 def main():
@@ -20,7 +21,7 @@ def main():
     for hist in range(n_hist):
         CR.GLOBAL_PRIOR_COMB_COUNTS.clear()
         n = int(rng.integers(1, 9))
-        names = [f'f{i}' for i in range(n + 2)]
+        names = ['label'] + [f'f{i}' for i in range(n + 1)]      # some candidates contain the label column, some do not
         universe = list(itertools.combinations(names, 2))
         rng.shuffle(universe)
         L = [tuple(x) for x in universe[:n]]
@@ -35,7 +36,7 @@ def main():
         steps = int(rng.integers(1, 12))
         for step in range(steps):
             cap = int(rng.integers(0, n + 3))
-            args = SimpleNamespace(combination_number_upper_bound=cap)
+            args = make_args(combination_number_upper_bound=cap, target_ranking_only='False')
             use_other = rng.random() < 0.15
             comb = list(other) if use_other else list(L)
             env = {'combinations': comb, 'args': args, 'GLOBAL_PRIOR_COMB_COUNTS': CR.GLOBAL_PRIOR_COMB_COUNTS}
